@@ -94,6 +94,12 @@ func isContainer(k reflect.Kind) bool {
 	return false
 }
 
+// sameLocation reports whether a reference handed out earlier still refers to the given slot.
+func sameLocation(w reflectValueWrapper, slot reflect.Value) bool {
+	v := w.reflectValue()
+	return v.CanAddr() && slot.CanAddr() && v.Addr().UnsafePointer() == slot.Addr().UnsafePointer()
+}
+
 func copyReflectValueWrapper(w reflectValueWrapper) {
 	v := w.reflectValue()
 	c := reflect.New(v.Type()).Elem()
@@ -265,8 +271,12 @@ func (o *objectGoReflect) elemToValue(ev reflect.Value) (Value, reflectValueWrap
 }
 
 func (o *objectGoReflect) _getFieldValue(name string) Value {
-	if v := o.valueCache[name]; v != nil {
-		return v.esValue()
+	if cached := o.valueCache[name]; cached != nil {
+		// a field promoted through an embedded pointer moves when Go code replaces that pointer
+		if v := o._getField(name); v.IsValid() && sameLocation(cached, v) {
+			return cached.esValue()
+		}
+		delete(o.valueCache, name)
 	}
 	if v := o._getField(name); v.IsValid() {
 		res, w := o.elemToValue(v)
